@@ -57,22 +57,70 @@ theorem term_of_rest {mem : Bytes} {lend stop : Nat} {r : Bytes} (hr : At mem le
     have := hrh x rfl
     simp [isStopB, this]
 
+theorem term_of_rest' {mem : Bytes} {lend stop : Nat} {x : UInt8} {r : Bytes} (hr : At mem lend stop (x :: r))
+    (hx : isEolB x = true) : Term mem lend := by
+  intro b hb
+  have h1 : byteAt mem lend = .ok x := byteAt_at hr
+  have : mem[lend]? = some x := by
+    unfold byteAt at h1
+    cases hm : mem[lend]? with
+    | none => simp [hm] at h1
+    | some y => simp [hm] at h1; simp [h1]
+  rw [this] at hb
+  cases hb
+  simp [isStopB, hx]
+
 /-- one step of what the loop does with a line -/
 def stepLine {α : Type} (lineS : Bytes → Res (Option α)) (push : Container → α → Container)
     (c : Container) (L : Bytes) : Res Container :=
   (lineS L).map fun o => match o with | some l => push c l | none => c
 
+theorem dropWhile_nil_all (pred : UInt8 → Bool) (s : Bytes) (h : s.dropWhile pred = []) : ∀ x ∈ s, pred x = true := by
+  induction s with
+  | nil => intro x hx; simp at hx
+  | cons b s ih =>
+    by_cases hb : pred b = true
+    · simp only [List.dropWhile, hb] at h
+      intro x hx; simp at hx; rcases hx with rfl | hx
+      · exact hb
+      · exact ih h x hx
+    · simp [List.dropWhile, hb] at h
+
+/-- the block ends with an end-of-line byte -/
+def EndsEolL (S : Bytes) : Prop := ∃ e, S.getLast? = some e ∧ isEolB e = true
+
+/-- the end of the block `S = [.., stop)` is harmless: the byte behind it is a NUL / end-of-line byte (or lies
+outside `mem`), or the block is empty, or its last byte is an end-of-line byte (then the last line of the line
+loop is that byte alone and nothing behind the block is looked at) -/
+def TermOr (mem : Bytes) (stop : Nat) (S : Bytes) : Prop := Term mem stop ∨ S = [] ∨ EndsEolL S
+
+theorem getLast?_suffix {R S : Bytes} (h : R <:+ S) (hne : R ≠ []) : R.getLast? = S.getLast? := by
+  obtain ⟨t, rfl⟩ := h
+  rw [List.getLast?_append]
+  cases hr : R.getLast? with
+  | none => exact absurd (List.getLast?_eq_none_iff.mp hr) hne
+  | some x => rfl
+
+theorem TermOr.suffix {mem : Bytes} {stop : Nat} {S R : Bytes} (h : TermOr mem stop S) (hs : R <:+ S) :
+    TermOr mem stop R := by
+  rcases h with h | h | ⟨e, he, hee⟩
+  · exact Or.inl h
+  · subst h; exact Or.inr (Or.inl (List.eq_nil_of_suffix_nil hs))
+  · by_cases hr : R = []
+    · exact Or.inr (Or.inl hr)
+    · exact Or.inr (Or.inr ⟨e, by rw [getLast?_suffix hs hr]; exact he, hee⟩)
+
 theorem lineLoop_spec {α : Type} {line : Nat → Nat → Res (Option α)} {lineS : Bytes → Res (Option α)}
-    {push : Container → α → Container} {mem : Bytes} {stop : Nat} (ht : Term mem stop)
+    {push : Container → α → Container} {mem : Bytes} {stop : Nat}
     (hline : ∀ p q L R, At mem p q L → At mem q stop R → (∀ b, R.head? = some b → isEolB b = true) →
-      Term mem q → line p q = lineS L) :
-    ∀ (fuel lbegin : Nat) (S : Bytes) (c : Container), At mem lbegin stop S → S.length < fuel →
+      (Term mem q ∨ ∃ e, L = [e] ∧ isEolB e = true) → line p q = lineS L) :
+    ∀ (fuel lbegin : Nat) (S : Bytes) (c : Container), At mem lbegin stop S → S.length < fuel → TermOr mem stop S →
       lineLoop notEolB line push mem stop fuel lbegin c = (codeLines S).foldlM (stepLine lineS push) c := by
   intro fuel
   induction fuel with
   | zero => intro _ _ _ _ hf; omega
   | succ fuel ih =>
-    intro lbegin S c h hf
+    intro lbegin S c h hf ht
     cases S with
     | nil =>
       have : lbegin = stop := h.eq_stop_iff.mpr rfl
@@ -92,7 +140,29 @@ theorem lineLoop_spec {α : Type} {line : Nat → Nat → Res (Option α)} {line
         have h' : At mem lbegin stop ((b :: S.takeWhile notEolB) ++ S.dropWhile notEolB) := by
           simpa [List.takeWhile_append_dropWhile] using h
         exact h'.unappend a
-      have htl := term_of_rest a hR ht
+      have hsuf : S.dropWhile notEolB <:+ b :: S := (List.dropWhile_suffix _).trans (List.suffix_cons b S)
+      have htl : Term mem lend ∨ ∃ e, b :: S.takeWhile notEolB = [e] ∧ isEolB e = true := by
+        cases hd : S.dropWhile notEolB with
+        | cons y r =>
+          rw [hd] at a hR
+          exact Or.inl (term_of_rest' a (hR y rfl))
+        | nil =>
+          rw [hd] at a
+          have hls : lend = stop := a.eq_stop_iff.mpr rfl
+          rcases ht with ht | ht | ⟨e0, he0, hee0⟩
+          · exact Or.inl (hls ▸ ht)
+          · simp at ht
+          · -- the block ends with an end-of-line byte and no end-of-line byte follows `b`: the block is `[b]`
+            have hall : ∀ x ∈ S, notEolB x = true := dropWhile_nil_all notEolB S hd
+            cases S with
+            | nil => simp at he0; subst he0; exact Or.inr ⟨b, by simp, hee0⟩
+            | cons y ys =>
+              have hmem : e0 ∈ y :: ys := by
+                have : (b :: y :: ys).getLast? = (y :: ys).getLast? := by simp [List.getLast?_cons_cons]
+                rw [this] at he0
+                exact List.mem_of_getLast? he0
+              have := hall e0 hmem
+              simp [notEolB, hee0] at this
       simp only [lineLoop, hne, if_false, e, bind, Except.bind, hline _ _ _ _ hL a hR htl, codeLines_cons,
         List.foldlM_cons, stepLine]
       cases hl : lineS (b :: S.takeWhile notEolB) with
@@ -102,7 +172,7 @@ theorem lineLoop_spec {α : Type} {line : Nat → Nat → Res (Option α)} {line
           have := (List.dropWhile_suffix (l := S) notEolB).length_le
           simp at hf; omega
         simp only [Except.map]
-        exact ih lend _ _ a hlen
+        exact ih lend _ _ a hlen (ht.suffix hsuf)
 
 /-! ## code lines versus the lines of the text -/
 
